@@ -193,13 +193,15 @@ def login_level(chk):
     from minecraft.networking.connection import Connection
     rng, th = chk.rng, chk.tier == 'thorough'
     for trial in range(12 if th else 4):
-        pv = rng.choice([340, 578, 757])
+        pv = [47, 757][trial] if trial < 2 else rng.choice([47, 107, 210, 340, 404, 578, 757])
         ids = proto.Ids(pv)
         secrets = [bytes(rng.randrange(256) for _ in range(16)) for _ in range(3)]
         nlogins = 3 if trial % 2 else 2
         servers, plains = [], []
+        tokens = []
         for k in range(nlogins):
             token = bytes(rng.randrange(256) for _ in range(rng.choice([1, 4, 64])))
+            tokens.append(token)
             steps = [('enc', '-', token), ('success',), ('ka', 1000 + k)]
             frames, cut = c10.build_server(ids, steps)
             extra = bytes(rng.randrange(256) for _ in range(rng.choice([40, 300])))      # bytes the harness reads itself afterwards
@@ -233,8 +235,23 @@ def login_level(chk):
                     j = next((x for x, (a, b) in enumerate(zip(got, want)) if a != b), None)
                     what = 'login %d: bytes taken alternately through file_object.read and socket.recv do not decrypt as one continuous stream (first difference at byte %s)' % (k, j)
                     break
-                # the client side of this login must be keyed by THIS login's secret
+                # the key holder recovers secret and verify token from the encryption response as the protocol lays it out
+                # (packet id, then two VarInt-length-prefixed RSA blocks, from 1.8 = protocol 47 on)
                 sends = servers[k].sends
+                try:
+                    body = sends[5]
+                    pid, j = proto.rd_varint(body, 0)
+                    a, j = proto.rd_varint(body, j)
+                    es = body[j:j + a]
+                    b, j2 = proto.rd_varint(body, j + a)
+                    et = body[j2:j2 + b]
+                    opened = (pid == ids.sb_encryption_response and j2 + b == len(body) and c10.rsa_open(es) == secrets[k] and c10.rsa_open(et) == tokens[k])
+                except Exception:
+                    opened = False
+                if not opened:
+                    what = 'login %d at protocol %d: the key holder does not recover the shared secret and the verify token from the encryption response (%s...)' % (k, pv, sends[5].hex()[:24] if len(sends) > 5 else 'missing')
+                    break
+                # the client side of this login must be keyed by THIS login's secret
                 dec = run_model([('mc_decrypt', [secrets[k], sends[6:]])])[0]
                 tail = b''.join(bytes(x) for x in dec)
                 exp = proto.frame(ids.sb_keep_alive, struct.pack('>q', 1000 + k) if ids.keep_alive_long else proto.varint(1000 + k))
